@@ -90,6 +90,8 @@ pub use streams::{
 };
 
 mod timer;
+#[cfg(quinn_rs_quinn_verif)]
+pub(crate) mod verif_hooks;
 use crate::congestion::Controller;
 use timer::{Timer, TimerTable};
 
